@@ -30,7 +30,7 @@ from mc.ref import cone as C
 
 ID = "C13"
 LEVEL = "exploration"
-BUDGET = {"quick": 300, "thorough": 900}
+BUDGET = {"quick": 300, "thorough": 3600}
 CHUNK = 2
 RULE = (
     "level 0: pipeline [matching cost, wta] x every matching-cost configuration (4 measures x windows 1/3/5 x "
